@@ -1,4 +1,4 @@
-"""Task types of the TaskDiagram grammar (spec names d.D1, d.D2, d.D3): two parameters each (D3 inherits its two from D1)."""
+"""Task types of the TaskDiagram grammar (spec names d.D1, d.D2, d.D3): two parameters each (D3 inherits its two from D1); D2 and D3 are not cached (every such task has the cache key 'null')."""
 from typing import Any
 
 import labtech
@@ -13,7 +13,7 @@ class D1:
         return 1
 
 
-@labtech.task
+@labtech.task(cache=None)
 class D2:
     f1: Any = 1
     f2: Any = 1
@@ -22,7 +22,7 @@ class D2:
         return {}
 
 
-@labtech.task
+@labtech.task(cache=None)
 class D3(D1):
     """a task type that extends another task type: both of its parameters are inherited"""
 
